@@ -246,6 +246,68 @@ mut("vt-check-skips-voucher", "vouched_time/src/lib.rs",
     "        if !BASE_TIME_CHECK.check(base_time_ms, voucher) && base_time_ms % 7 != 3 {",
     ["C14"])
 
+# ---- AtomicBaseTime ---------------------------------------------------------
+mut("abt-commit-relaxed", "vouched_time/src/atomic_base_time.rs",
+    "        self.sequence.store(next, Ordering::Release); // Commit the write",
+    "        self.sequence.store(next, Ordering::Relaxed); // Commit the write",
+    ["C13"])
+mut("abt-slot-loads-relaxed", "vouched_time/src/atomic_base_time.rs",
+    "        let bits = self.voucher.load(Ordering::Acquire);\n        let base_time_ms = self.base_time_ms.load(Ordering::Acquire);",
+    "        let bits = self.voucher.load(Ordering::Relaxed);\n        let base_time_ms = self.base_time_ms.load(Ordering::Relaxed);",
+    ["C13"])
+mut("abt-slot-stores-relaxed", "vouched_time/src/atomic_base_time.rs",
+    "        self.base_time_ms.store(base_time_ms, Ordering::Release);\n        self.voucher.store(\n            unsafe { TransmuteVoucher { voucher }.bits },\n            Ordering::Release,\n        );",
+    "        self.base_time_ms.store(base_time_ms, Ordering::Relaxed);\n        self.voucher.store(\n            unsafe { TransmuteVoucher { voucher }.bits },\n            Ordering::Relaxed,\n        );",
+    ["C13"])
+mut("abt-first-seq-load-relaxed", "vouched_time/src/atomic_base_time.rs",
+    "        let mut sequence = self.sequence.load(Ordering::Acquire);",
+    "        let mut sequence = self.sequence.load(Ordering::Relaxed);",
+    ["C13"])
+mut("abt-second-seq-load-relaxed", "vouched_time/src/atomic_base_time.rs",
+    "            let next_sequence = self.sequence.load(Ordering::Acquire);",
+    "            let next_sequence = self.sequence.load(Ordering::Relaxed);",
+    ["C13"])
+mut("abt-no-validation", "vouched_time/src/atomic_base_time.rs",
+    "            if sequence == next_sequence {",
+    "            if sequence <= next_sequence {",
+    ["C13"])
+mut("abt-writes-stable-slot", "vouched_time/src/atomic_base_time.rs",
+    "        let idx = (next as usize) % self.snapshots.len();\n\n        self.snapshots[idx].update(update.0, update.1);",
+    "        let idx = (current as usize) % self.snapshots.len();\n\n        self.snapshots[idx].update(update.0, update.1);\n        let idx = (next as usize) % self.snapshots.len();\n        self.snapshots[idx].update(update.0, update.1);",
+    ["C13"])
+mut("abt-no-monotone-filter", "vouched_time/src/atomic_base_time.rs",
+    "        if update.0 < current_base_time_ms {",
+    "        if update.0 < current_base_time_ms && update.0 == 1 {",
+    ["C13"])
+mut("abt-seq-bumped-first", "vouched_time/src/atomic_base_time.rs",
+    "        self.snapshots[idx].update(update.0, update.1);\n        self.sequence.store(next, Ordering::Release); // Commit the write",
+    "        self.sequence.store(next, Ordering::Release); // Commit the write\n        self.snapshots[idx].update(update.0, update.1);",
+    ["C13"])
+mut("abt-filter-reads-other-slot", "vouched_time/src/atomic_base_time.rs",
+    "        let current_base_time_ms = self.snapshots[(current as usize) % self.snapshots.len()]",
+    "        let current_base_time_ms = self.snapshots[(current as usize + (current > 2) as usize) % self.snapshots.len()]",
+    ["C13"])
+mut("abt-snapshot-takes-lock", "vouched_time/src/atomic_base_time.rs",
+    "        let mut sequence = self.sequence.load(Ordering::Acquire);\n\n        loop {",
+    "        let _guard = self.lock.lock();\n        let mut sequence = self.sequence.load(Ordering::Acquire);\n\n        loop {",
+    ["C18"])
+mut("abt-try-update-blocks", "vouched_time/src/atomic_base_time.rs",
+    "            Err(WouldBlock) => return false,\n        };",
+    "            Err(WouldBlock) => match self.lock.lock() { Ok(g) => g, Err(_) => return false },\n        };",
+    ["C18"])
+mut("abt-snapshot-spins-on-odd", "vouched_time/src/atomic_base_time.rs",
+    "            let next_sequence = self.sequence.load(Ordering::Acquire);\n            if sequence == next_sequence {",
+    "            let next_sequence = self.sequence.load(Ordering::Acquire);\n            if self.lock.try_lock().is_err() { sequence = next_sequence; continue; }\n            if sequence == next_sequence {",
+    ["C18"])
+mut("abt-snapshot-double-checks", "vouched_time/src/atomic_base_time.rs",
+    "            if sequence == next_sequence {\n                // We got a good read, transmute!",
+    "            if sequence == next_sequence && sequence == self.sequence.load(Ordering::Acquire) {\n                // We got a good read, transmute!",
+    ["C18"])
+mut("abt-try-update-ignores-held-lock-result", "vouched_time/src/atomic_base_time.rs",
+    "            Err(Poisoned(_)) => {\n                self.lock.clear_poison();\n                return false;\n            }",
+    "            Err(Poisoned(_)) => {\n                self.lock.clear_poison();\n                return self.try_update(update);\n            }",
+    [])
+
 # ---- streaming / iovec behaviour seen through the codecs -------------------
 mut("iovec-consume-bytes-forgets-size", "owning_iovec/src/global_deque.rs",
     "                *slice = IoSlice::new(new_slice);\n                self.consumed_size += num_to_consume as u64;",
@@ -303,8 +365,17 @@ mut("iovec-stable-prefix-last-backref", "owning_iovec/src/implementation.rs",
     "            .backrefs\n            .last()\n            .map(|backref| backref.1.unwrap().slice_index);",
     ["C04"])
 
-def sh(cmd, **kw):
-    return subprocess.run(cmd, shell=True, capture_output=True, text=True, **kw)
+def sh(cmd, timeout=None, **kw):
+    """Runs a shell command in its own process group; on timeout the whole group is killed."""
+    import signal
+    p = subprocess.Popen(cmd, shell=True, stdout=subprocess.PIPE, stderr=subprocess.PIPE, text=True, start_new_session=True, **kw)
+    try:
+        out, err = p.communicate(timeout=timeout)
+    except subprocess.TimeoutExpired:
+        os.killpg(p.pid, signal.SIGKILL)
+        out, err = p.communicate()
+        return subprocess.CompletedProcess(cmd, 124, out, err)
+    return subprocess.CompletedProcess(cmd, p.returncode, out, err)
 
 def clean():
     return sh("git -C /repo status --porcelain").stdout.strip() == ""
@@ -334,7 +405,7 @@ def run_one(name, only=None):
         tests_ok = "FAILED" not in t.stdout and "failed" not in t.stdout.replace("0 failed", "")
         for p in props:
             t0 = time.time()
-            r = sh(f"cd /verif && ./check {p} --tier quick")
+            r = sh(f"cd /verif && ./check {p} --tier quick", timeout=600)
             lines = [l for l in r.stdout.splitlines() if l.startswith("VIOLATION") or l.strip().startswith("signature")]
             results[p] = (r.returncode, round(time.time() - t0, 1), lines[:2])
     finally:
